@@ -47,6 +47,7 @@ type Scenario struct {
 	Spec        []SpecStep `json:"spec,omitempty"` // a TLC behaviour of Raft.tla to be replayed step by step
 	StopOnDrift bool       `json:"stop_on_drift,omitempty"`
 	Family      string     `json:"family,omitempty"`
+	Attack      string     `json:"attack,omitempty"` // weakening whose TLC counterexample this schedule is
 	LatencyUS   int        `json:"latency_us,omitempty"`
 }
 
